@@ -31,7 +31,9 @@ POWERS = ([["int", n] for n in range(-3, 4)] +
           [["pair", n, d] for n in (-3, -1, 1, 2, 3, 5) for d in (1, 2, 3, 4)] +
           [["frac", n, d] for n in (-1, 1, 3) for d in (2, 3, 4)] +
           [["float", n, d] for n, d in ((1, 2), (1, 4), (3, 2), (-5, 2), (3, 4), (-1, 2), (2, 1), (-1, 1))] +
-          [["float3", n, d] for n, d in ((1, 3), (2, 3), (-1, 3), (4, 3))])
+          [["float3", n, d] for n, d in ((1, 3), (2, 3), (-1, 3), (4, 3))] +
+          # the denominator of a pair / Fraction exponent may carry the sign
+          [["pair", 1, -2], ["pair", -1, -2], ["pair", 3, -4], ["pair", -3, -2], ["frac", -1, -2], ["frac", 1, -3]])
 
 
 @st.composite
@@ -74,7 +76,15 @@ def pow_case(draw):
     u = draw(G.expr_of_dim(d1))
     p = draw(st.sampled_from(POWERS))
     x = draw(G.magnitudes(lo_exp=-30, hi_exp=30))
-    return {"kind": "pow", "u": u, "x": x, "p": p}
+    intarr = None
+    if draw(st.integers(0, 5)) == 0:
+        # an integer numpy array as magnitude, units given as a dictionary: arithmetic is still done on real numbers
+        a_ = draw(st.sampled_from([a for a in G.LIN_PLAIN if not a[1].startswith("[")]))
+        u = G.atom(*a_)
+        intarr = draw(st.sampled_from(["uint8", "int16", "int64", "int32"]))
+        x = draw(st.lists(st.sampled_from([200, 3, 7, 120, 1, 250]), min_size=1, max_size=3))
+        p = draw(st.sampled_from([["int", 2], ["int", 3], ["int", -1], ["int", -2], ["pair", 1, 2], ["int", 1]]))
+    return {"kind": "pow", "u": u, "x": x, "p": p, "intarr": intarr}
 
 
 @st.composite
@@ -263,6 +273,10 @@ def check_pow(case, v):
     if R.evaluate(case["u"])[4] > 60:
         return v.discard("float-range")
     a = Quantity(x, tu)
+    if case.get("intarr"):
+        key = (case["u"][1] + ":" if case["u"][1] else "") + case["u"][2]          # the library's unit id 'k:m'
+        a = Quantity(np.array(case["x"], dtype=case["intarr"]), {key: 1})
+        v.label("integer_array_with_dict_units")
     Ba, atoms_a, dim_a = _B(a)
     if not _inrange(Ba) or np.any(Ba == 0) and pf <= 0:
         return v.discard("float-range")
